@@ -48,6 +48,12 @@ def judge(b: Batch, out, log, wit, rs):
     for v in out["ledger_violations"]:
         b.violation(v["kind"], f"{v['kind']}: {v.get('what', 'close')} on fd {v['fd']} by thread {v['thread']} (closed earlier at {v['closed_at'][-2:]})",
                     witness=dict(wit, ledger=v), replay_spec=rs)
+    acs = out.get("after_completed_stop")
+    if acs is not None:
+        b.count("completed_stop_audits")
+        if acs["threads"] or acs["fds"]:
+            b.violation("resources-alive-after-completed-stop", f"a stop() of the started observer had returned and all calls had ended, yet threads {acs['threads']} / descriptors {acs['fds']} were still there (before any further stop())",
+                        witness=wit, replay_spec=rs)
     if out["fds_open"]:
         b.violation("descriptor-leak", f"descriptors still open after the owner's shutdown completed: {out['fds_open']}", witness=wit, replay_spec=rs)
     elif out["proc_fd_delta"] > 0:
@@ -266,7 +272,7 @@ def run_batch(spec):
                     if i % spec["of"] != spec["j"] or b.expired():
                         continue
                     closer = pt[0].startswith("wdv-call-")
-                    for partner in (["touch", "rmroot", "none"] if closer else c06.PARTNERS):
+                    for partner in (["touch", "rmroot", "none", "schedule"] if closer else c06.PARTNERS):
                         nth = r.choice([1, 1, 2])
                         ev = r.choice([False, True, "mkdirs"])
                         out = apireal.hold_case(ins, led, "inotify", pt, nth, partner, ev)
